@@ -32,6 +32,9 @@ RULE = ('Abstract Config/Partial DAGs with aliasing through parameters and conta
         'argument added/removed). Judged: never raises; reflexive; symmetric; == / != agree; '
         'answer equals canon truth; a==b implies isomorphic builds. Non-trivial: DAG has >=2 '
         'Buildables; distinct = (DAG sketch, rewrite).')
+RULE_ADDITIONS = (' Added by the rounds of seeded changes (DESIGN 9.7): ' +
+                  'eq-true-sharing-differs:alias-redirected | equal but builds differ in sharing | fix: compare full path sets per shared object; renamed **kwargs (builds compared up to **kwargs arrival order)')
+RULE = RULE + RULE_ADDITIONS
 ASSUMPTIONS = [
     "ground truth is vf.canon 'cfg-defaults' (independent of fiddle's == and daglish)",
     'leaf pool has no NaN and no cross-type-equal values (1/True/1.0), as the statement '
